@@ -1,7 +1,7 @@
 #!/bin/sh
 # runs seedrun.py for every delivered seed that has no result yet (3 in parallel)
 cd /verif
-for d in /tmp/seed-out/C*/[abcd]; do
+for d in /tmp/seed-out/C*/[abcde]; do
   [ -f "$d/patch.diff" ] || continue
   pid=$(basename $(dirname $d)); var=$(basename $d)
   grep -q "^SEED $pid-$var:" /tmp/seedruns.log 2>/dev/null && continue
